@@ -22,12 +22,12 @@ def gen_cases(tier, seed, n_grammars, profiles=("general",), reprs=workload.REPR
             if expansion_share and rng.random() < expansion_share:
                 d["expansion"] = True
             fixed_member = str(desc.get("name", "")).startswith("fx_")
-            if not d.get("python") and (pyrandom.Random(f"str-{seed}-{gi}-{rk}-{dk}").random() < 0.2 or (fixed_member and rk in ("stack", "dsge") and (gi + seed) % 2 == 0)):
+            if not d.get("python") and pyrandom.Random(f"str-{seed}-{gi}-{rk}-{dk}").random() < 0.2:
                 # declared with STRING annotations (postponed evaluation / quoted forward references), which the library
                 # resolves anew on every expansion: every refinement is a new object each time
                 d["_string_annotations"] = True
                 d["name"] = str(d.get("name", "g")) + "~str"
-            yield {
+            case = {
                 "desc": d,
                 "repr": rk,
                 "decider": dk,
@@ -37,6 +37,11 @@ def gen_cases(tier, seed, n_grammars, profiles=("general",), reprs=workload.REPR
                 "search": (rng.choice(["gp", "rs", "hc", "opo"]) if with_search and rng.random() < 0.35 else None),
                 "retype": rng.random() < 0.2,
             }
+            yield case
+            if fixed_member and rk in ("stack", "dsge") and not d.get("_string_annotations") and not d.get("python"):
+                # every hand-written shape ALSO under string annotations, for the representations that key what they keep
+                # by type objects (an extra case: the plain one above stays)
+                yield dict(case, desc=dict(d, _string_annotations=True, name=str(d.get("name", "g")) + "~str"), seed=case["seed"] + 1)
 
 
 class Ctx:
